@@ -44,19 +44,19 @@ theorem findLF_lt {l : List Byte} {k : Nat} (h : findLF l = some k) : k < l.leng
         have := ih hr
         simp; omega
 
-/-- the PORT_ASCII line loop stays inside the buffer and keeps `text_start ≤ text_end` -/
-theorem asciiLoop_ok (fuel : Nat) (s : S) (evs : List Ev) (hl : s.text.length = MAXT) (hse : s.tstart ≤ s.tend)
+/-- the PORT_ASCII line loop stays inside the buffer and keeps `text_start ≤ text_end`, whatever the callbacks do -/
+theorem asciiLoop_ok (o : Oracle) (fuel : Nat) (s : S) (evs : List Ev) (hl : s.text.length = MAXT) (hse : s.tstart ≤ s.tend)
     (he : s.tend + 1 ≤ MAXT) :
-    ∃ s' evs', asciiLoop fuel s evs = .ok (s', evs') ∧ s'.text.length = MAXT ∧ s'.tstart ≤ s'.tend ∧
+    ∃ s' evs' e, asciiLoop o fuel s evs = .ok (s', evs', e) ∧ s'.text.length = MAXT ∧ s'.tstart ≤ s'.tend ∧
       s'.tend + 1 ≤ MAXT ∧ s'.dec = s.dec ∧ s'.port = s.port := by
   induction fuel generalizing s evs with
-  | zero => exact ⟨s, evs, rfl, hl, hse, he, rfl, rfl⟩
+  | zero => exact ⟨s, evs, _, rfl, hl, hse, he, rfl, rfl⟩
   | succ n ih =>
     unfold asciiLoop
     rw [if_neg (by omega)]
     dsimp only
     cases hf : findLF (slice s.text s.tstart s.tend) with
-    | none => exact ⟨s, evs, rfl, hl, hse, he, rfl, rfl⟩
+    | none => exact ⟨s, evs, _, rfl, hl, hse, he, rfl, rfl⟩
     | some k =>
       have hk := findLF_lt hf
       rw [slice_length _ _ _ (by omega)] at hk
@@ -66,19 +66,25 @@ theorem asciiLoop_ok (fuel : Nat) (s : S) (evs : List Ev) (hl : s.text.length = 
       dsimp only
       have hlen' : (List.take (s.tstart + k) s.text ++ [0] ++ List.drop (s.tstart + k + ([0] : List Byte).length) s.text).length
           = MAXT := by rw [← hl]; exact writeAt_length (writeAt_ok hw)
-      split
-      · exact ⟨_, _, rfl, hlen', Nat.le_refl _, by dsimp only; omega, rfl, rfl⟩
-      · obtain ⟨s', evs', h1, h2, h3, h4, h5, h6⟩ := ih
-          { s with text := List.take (s.tstart + k) s.text ++ [0] ++ List.drop (s.tstart + k + ([0] : List Byte).length) s.text,
-                   tstart := s.tstart + k + 1 } (evs ++ [Ev.input (List.take k (slice s.text s.tstart s.tend))])
-          hlen' (by dsimp only; omega) he
-        exact ⟨s', evs', h1, h2, h3, h4, h5, h6⟩
+      cases ho : o s.cbCount with
+      | err => exact ⟨_, _, _, rfl, hlen', by dsimp only; omega, he, rfl, rfl⟩
+      | dest => exact ⟨_, _, _, rfl, hlen', by dsimp only; omega, he, rfl, rfl⟩
+      | ok =>
+        dsimp only
+        split
+        · exact ⟨_, _, _, rfl, hlen', Nat.le_refl _, by dsimp only; omega, rfl, rfl⟩
+        · obtain ⟨s', evs', e, h1, h2, h3, h4, h5, h6⟩ := ih
+            { s with text := List.take (s.tstart + k) s.text ++ [0] ++ List.drop (s.tstart + k + ([0] : List Byte).length) s.text,
+                     tstart := s.tstart + k + 1, cbCount := s.cbCount + 1 }
+            (evs ++ [Ev.input (List.take k (slice s.text s.tstart s.tend))])
+            hlen' (by dsimp only; omega) he
+          exact ⟨s', evs', e, h1, h2, h3, h4, h5, h6⟩
 
-/-- **get_user_data keeps the invariant**: for every port, every socket content, every decoder state and every
-    iflags, no access leaves `text[]`, `sb_buf[]` or the local `buf[]`, and `text_start ≤ text_end ≤ MAX_TEXT-1`
-    holds afterwards -/
-theorem getUserData_ok' {s : S} (h : Inv s) :
-    ∃ s' evs, getUserData s = .ok (s', evs) ∧ Inv s' ∧ s'.dec.fl.single = s.dec.fl.single := by
+/-- **get_user_data keeps the invariant**: for every port, every socket content, every decoder state, every
+    iflags and every behaviour of the callbacks (return, LPC error, destruct), no access leaves `text[]`,
+    `sb_buf[]` or the local `buf[]`, and `text_start ≤ text_end ≤ MAX_TEXT-1` holds afterwards -/
+theorem getUserData_ok' (o : Oracle) {s : S} (h : Inv s) :
+    ∃ s' evs, getUserData o s = .ok (s', evs) ∧ Inv s' ∧ s'.dec.fl.single = s.dec.fl.single := by
   unfold getUserData
   split
   · exact ⟨_, _, rfl, h, rfl⟩
@@ -98,61 +104,77 @@ theorem getUserData_ok' {s : S} (h : Inv s) :
         cases hp : s1.port with
         | telnet =>
           dsimp only
-          obtain ⟨r, hr, ck⟩ := copyChars_ok ok.inv.dec (s1.sock.take sp)
+          obtain ⟨r, n', dead, hr, hnd⟩ := copyCharsO_ok o ok.inv.dec s1.cbCount (s1.sock.take sp)
           rw [hr]
           dsimp only
-          have hroomT := ok.roomT (by rw [← ok.port]; exact hp)
-          have hout := ck.len
-          have hw1 : s1.tend + r.out.length ≤ s1.text.length := by omega
-          rw [writeAt_ok hw1]
-          dsimp only
-          have hl2 := writeAt_length (writeAt_ok hw1)
-          have hw2 : s1.tend + r.out.length + ([0] : List Byte).length ≤
-              (List.take s1.tend s1.text ++ r.out ++ List.drop (s1.tend + r.out.length) s1.text).length := by
-            rw [hl2]; simp; omega
-          rw [writeAt_ok hw2]
-          dsimp only
-          have hl3 := writeAt_length (writeAt_ok hw2)
-          obtain ⟨f, hf, hfs⟩ := setCmdFlag_ok
-            { s1 with port := Port.telnet, sock := List.drop sp s1.sock,
-                      text := List.take (s1.tend + r.out.length) (List.take s1.tend s1.text ++ r.out ++ List.drop (s1.tend + r.out.length) s1.text) ++ [0] ++
-                        List.drop (s1.tend + r.out.length + ([0] : List Byte).length) (List.take s1.tend s1.text ++ r.out ++ List.drop (s1.tend + r.out.length) s1.text),
-                      tend := s1.tend + r.out.length, dec := r.d }
-            (by dsimp only; rw [hl3, hl2]; omega)
-          rw [hf]
-          refine ⟨_, _, rfl, ⟨?_, ?_, ?_, decInv_fl ck.inv f⟩, ?_⟩
-          · dsimp only; rw [hl3, hl2]; exact hl1
-          · dsimp only; omega
-          · dsimp only; omega
-          · dsimp only; dsimp only at hfs; rw [hfs, ck.single, ok.dec]
+          cases dead with
+          | true =>
+            simp only [if_true]
+            exact ⟨_, _, rfl, ⟨hl1, hse1, ok.inv.eMax, ok.inv.dec⟩, by dsimp only; rw [ok.dec]⟩
+          | false =>
+            simp only [Bool.false_eq_true, if_false]
+            obtain ⟨r0, hr0, ed, eo, _⟩ := hnd rfl
+            obtain ⟨r0', hr0', ck⟩ := copyChars_ok ok.inv.dec (s1.sock.take sp)
+            rw [hr0] at hr0'; injection hr0' with hr0'; subst hr0'
+            have hroomT := ok.roomT (by rw [← ok.port]; exact hp)
+            have hout := ck.len
+            rw [← eo] at hout
+            have hw1 : s1.tend + r.out.length ≤ s1.text.length := by omega
+            rw [writeAt_ok hw1]
+            dsimp only
+            have hl2 := writeAt_length (writeAt_ok hw1)
+            have hw2 : s1.tend + r.out.length + ([0] : List Byte).length ≤
+                (List.take s1.tend s1.text ++ r.out ++ List.drop (s1.tend + r.out.length) s1.text).length := by
+              rw [hl2]; simp; omega
+            rw [writeAt_ok hw2]
+            dsimp only
+            have hl3 := writeAt_length (writeAt_ok hw2)
+            obtain ⟨f, hf, hfs⟩ := setCmdFlag_ok
+              { s1 with port := Port.telnet, sock := List.drop sp s1.sock,
+                        text := List.take (s1.tend + r.out.length) (List.take s1.tend s1.text ++ r.out ++ List.drop (s1.tend + r.out.length) s1.text) ++ [0] ++
+                          List.drop (s1.tend + r.out.length + ([0] : List Byte).length) (List.take s1.tend s1.text ++ r.out ++ List.drop (s1.tend + r.out.length) s1.text),
+                        tend := s1.tend + r.out.length, dec := r.d, cbCount := n' }
+              (by dsimp only; rw [hl3, hl2]; omega)
+            rw [hf]
+            refine ⟨_, _, rfl, ⟨?_, ?_, ?_, decInv_fl (by rw [ed]; exact ck.inv) f⟩, ?_⟩
+            · dsimp only; rw [hl3, hl2]; exact hl1
+            · dsimp only; omega
+            · dsimp only; omega
+            · dsimp only; dsimp only at hfs; rw [hfs, ed, ck.single, ok.dec]
         | ascii =>
           dsimp only
           have hw1 : s1.tend + (s1.sock.take sp).length ≤ s1.text.length := by omega
           rw [writeAt_ok hw1]
           dsimp only
           have hl2 := writeAt_length (writeAt_ok hw1)
-          obtain ⟨s2, evs2, h1, h2, h3, h4, h5, h6⟩ := asciiLoop_ok ((s1.sock.take sp).length + 1)
+          obtain ⟨s2, evs2, e, h1, h2, h3, h4, h5, h6⟩ := asciiLoop_ok o (s1.tend - s1.tstart + (s1.sock.take sp).length + 1)
             { s1 with port := Port.ascii, sock := List.drop sp s1.sock,
                       text := List.take s1.tend s1.text ++ s1.sock.take sp ++ List.drop (s1.tend + (s1.sock.take sp).length) s1.text,
                       tend := s1.tend + (s1.sock.take sp).length } []
             (by dsimp only; rw [hl2]; exact hl1) (by dsimp only; omega) (by dsimp only; omega)
           rw [h1]
-          dsimp only
-          split
-          · rw [if_neg (by omega)]
-            have hsl : (slice s2.text s2.tstart s2.tend).length = s2.tend - s2.tstart := slice_length _ _ _ (by omega)
-            have hw3 : 0 + (slice s2.text s2.tstart s2.tend).length ≤ s2.text.length := by omega
-            rw [writeAt_ok hw3]
+          have hd2 : DecInv s2.dec := by rw [h5]; exact ok.inv.dec
+          have hs2 : s2.dec.fl.single = s.dec.fl.single := by rw [h5]; dsimp only; rw [ok.dec]
+          cases e with
+          | aborted => exact ⟨_, _, rfl, ⟨h2, h3, h4, hd2⟩, hs2⟩
+          | dead => exact ⟨_, _, rfl, ⟨h2, h3, h4, hd2⟩, hs2⟩
+          | done =>
             dsimp only
-            refine ⟨_, _, rfl, ⟨?_, ?_, ?_, ?_⟩, ?_⟩
-            · dsimp only; rw [writeAt_length (writeAt_ok hw3)]; exact h2
-            · dsimp only; omega
-            · dsimp only; omega
-            · dsimp only; rw [h5]; exact ok.inv.dec
-            · dsimp only; rw [h5]; dsimp only; rw [ok.dec]
-          · exact ⟨_, _, rfl, ⟨h2, h3, h4, by rw [h5]; exact ok.inv.dec⟩, by rw [h5]; dsimp only; rw [ok.dec]⟩
+            split
+            · rw [if_neg (by omega)]
+              have hsl : (slice s2.text s2.tstart s2.tend).length = s2.tend - s2.tstart := slice_length _ _ _ (by omega)
+              have hw3 : 0 + (slice s2.text s2.tstart s2.tend).length ≤ s2.text.length := by omega
+              rw [writeAt_ok hw3]
+              dsimp only
+              refine ⟨_, _, rfl, ⟨?_, ?_, ?_, hd2⟩, hs2⟩
+              · dsimp only; rw [writeAt_length (writeAt_ok hw3)]; exact h2
+              · dsimp only; omega
+              · dsimp only; omega
+            · exact ⟨_, _, rfl, ⟨h2, h3, h4, hd2⟩, hs2⟩
         | binary =>
-          exact ⟨_, _, rfl, ⟨hl1, hse1, ok.inv.eMax, ok.inv.dec⟩, by dsimp only; rw [ok.dec]⟩
+          dsimp only
+          cases o s1.cbCount <;>
+            exact ⟨_, _, rfl, ⟨hl1, hse1, ok.inv.eMax, ok.inv.dec⟩, by dsimp only; rw [ok.dec]⟩
         | console =>
           exact ⟨_, _, rfl, ⟨hl1, hse1, ok.inv.eMax, ok.inv.dec⟩, by dsimp only; rw [ok.dec]⟩
 
@@ -210,8 +232,8 @@ theorem addConsoleLine_ok' {s : S} (h0 : Inv s) (bytes : List Byte) :
     · dsimp only; omega
     · dsimp only; exact hfs
 
-theorem getUserData_ok {s : S} (h : Inv s) : ∃ s' evs, getUserData s = .ok (s', evs) ∧ Inv s' :=
-  let ⟨s', evs, h1, h2, _⟩ := getUserData_ok' h
+theorem getUserData_ok (o : Oracle) {s : S} (h : Inv s) : ∃ s' evs, getUserData o s = .ok (s', evs) ∧ Inv s' :=
+  let ⟨s', evs, h1, h2, _⟩ := getUserData_ok' o h
   ⟨s', evs, h1, h2⟩
 
 theorem addConsoleLine_ok {s : S} (h : Inv s) (bytes : List Byte) : ∃ s', addConsoleLine s bytes = .ok s' ∧ Inv s' :=
